@@ -29,6 +29,9 @@ func mutexName(v ssa.Value) string {
 		return st.Field(x.Field).Name()
 	case *ssa.Parameter:
 		return x.Name()
+	case *ssa.UnOp:
+		// a *sync.Mutex held in a variable: the variable's name
+		return mutexName(x.X)
 	}
 	return ""
 }
@@ -57,6 +60,15 @@ func (ex *Exec) monitorEnter(c *callCtx, mu Val) {
 		ex.used["monitor invariant on "+name+" (assumed at Lock, proved at Unlock)"] = true
 		// other goroutines may have changed the protected state since we last held the lock
 		for _, pn := range m.Protects {
+			if strings.HasPrefix(pn, "ghost ") {
+				// auxiliary variable owned by the monitor
+				gn := strings.TrimSpace(strings.TrimPrefix(pn, "ghost "))
+				if _, ok := ex.ghostGet(c.st, gn); !ok {
+					panic(unsupported("monitor: undeclared ghost " + gn))
+				}
+				c.st.H["X|"+gn] = ex.freshConst("prot", ex.keySort["X|"+gn])
+				continue
+			}
 			ex.havocProtected(fr, pn, c.st)
 		}
 		if fr.lockSnap == nil {
@@ -78,6 +90,34 @@ func (ex *Exec) monitorExit(c *callCtx, mu Val) {
 	for _, m := range ex.monitorsFor(fr.fn) {
 		if m.Mutex != name {
 			continue
+		}
+		// auxiliary updates and the guarantee of the releasing function
+		if fc := ex.w.contracts[fr.fn]; fc != nil && ex.pure == 0 {
+			for _, u := range fc.OnUnlock {
+				if u.Mutex != name {
+					continue
+				}
+				ex.pure++
+				amt := fr.evalClauseVal(u.Expr, fr.curBlk, c.st)
+				ex.pure--
+				cur, ok := ex.ghostGet(c.st, u.Name)
+				if !ok {
+					panic(unsupported("onunlock: undeclared ghost " + u.Name))
+				}
+				c.st.H["X|"+u.Name] = ex.name("gupd", ite(c.r(), app("+", cur.L[0], amt), cur.L[0]), sInt)
+				if fr.contrib == nil {
+					fr.contrib = map[string]string{}
+				}
+				prev, have := fr.contrib[u.Name]
+				if !have {
+					prev = "0"
+				}
+				fr.contrib[u.Name] = ex.name("contrib", app("+", prev, ite(c.r(), amt, "0")), sInt)
+			}
+			for _, cl := range fc.AtUnlock {
+				g := fr.evalClause(cl, fr.curBlk, c.st, nil)
+				ex.oblige(fr.label("atunlock."+cl.Label), "ensures", cl.Props, imp(c.r(), g), cl.Pos, cl.Text)
+			}
 		}
 		for _, inv := range m.Invs {
 			g := fr.evalClause(inv, fr.curBlk, c.st, nil)
@@ -212,7 +252,21 @@ func (ex *Exec) parentLocal(fn *ssa.Function, name string) (Val, bool) {
 			for _, ins := range b.Instrs {
 				if a, ok := ins.(*ssa.Alloc); ok && a.Comment == name {
 					if !ex.w.assignedOnce(p, a) {
-						panic(unsupported("closure contract mentions parent variable " + name + " which is reassigned"))
+						// a reassigned variable is still meaningful when a monitor protects it: it is read only while the
+						// lock is held (havoced at acquisition), and a closure that does not capture it cannot change it
+						prot := false
+						if pc := ex.w.contracts[p]; pc != nil {
+							for _, m := range pc.Monitors {
+								for _, pn := range m.Protects {
+									if pn == name {
+										prot = true
+									}
+								}
+							}
+						}
+						if !prot {
+							panic(unsupported("closure contract mentions parent variable " + name + " which is reassigned"))
+						}
 					}
 					sym := "pl!" + sanitize(p.Name()) + "!" + sanitize(name)
 					if _, done := ex.declared[sym]; !done {
@@ -276,8 +330,39 @@ func isFreeVarOf(f *ssa.Function, v ssa.Value, a *ssa.Alloc, root *ssa.Function)
 func storesTo(f *ssa.Function, fv *ssa.FreeVar) bool {
 	for _, b := range f.Blocks {
 		for _, ins := range b.Instrs {
-			if st, ok := ins.(*ssa.Store); ok && st.Addr == ssa.Value(fv) {
-				return true
+			st, ok := ins.(*ssa.Store)
+			if !ok {
+				continue
+			}
+			// the variable itself, or a field / array element inside it
+			a := st.Addr
+			for {
+				if a == ssa.Value(fv) {
+					return true
+				}
+				switch x := a.(type) {
+				case *ssa.FieldAddr:
+					a = x.X
+					continue
+				case *ssa.IndexAddr:
+					if _, isPtr := x.X.Type().Underlying().(*types.Pointer); isPtr {
+						a = x.X
+						continue
+					}
+				}
+				break
+			}
+		}
+	}
+	// a pointer into the variable handed to someone else (method with pointer receiver, argument) may be written through
+	for _, ref := range *fv.Referrers() {
+		if fa, ok := ref.(*ssa.FieldAddr); ok {
+			for _, r2 := range *fa.Referrers() {
+				switch r2.(type) {
+				case *ssa.UnOp, *ssa.Store, *ssa.FieldAddr, *ssa.IndexAddr, *ssa.DebugRef:
+				default:
+					return true
+				}
 			}
 		}
 	}
@@ -297,8 +382,41 @@ type spawnRec struct {
 }
 
 // spawn registers a goroutine running closure value f (a MakeClosure): its preconditions are checked here.
+// loopSpawns: does the loop body start goroutines?
+func loopSpawns(body map[*ssa.BasicBlock]bool) bool {
+	for b := range body {
+		for _, ins := range b.Instrs {
+			switch x := ins.(type) {
+			case *ssa.Go:
+				return true
+			case *ssa.Call:
+				if f := x.Call.StaticCallee(); f != nil && f.Name() == "Go" && f.Pkg != nil && f.Pkg.Pkg.Path() == "golang.org/x/sync/errgroup" {
+					return true
+				}
+			}
+		}
+	}
+	return false
+}
+
+// checkMonitorInit: before the first goroutine exists the monitor invariants are established by the spawner alone.
+func (fr *frame) checkMonitorInit(st *State, reach string) {
+	ex := fr.ex
+	if fr.monInit || fr.c == nil || ex.pure > 0 {
+		return
+	}
+	fr.monInit = true
+	for _, m := range fr.c.Monitors {
+		for _, inv := range m.Invs {
+			g := fr.evalClause(inv, fr.curBlk, st, nil)
+			ex.oblige(fr.label("monitor."+m.Mutex+"."+inv.Label+".init"), "invariant", inv.Props, imp(reach, g), inv.Pos, inv.Text)
+		}
+	}
+}
+
 func (fr *frame) spawnClosure(f Val, st *State, reach string, what string) {
 	ex := fr.ex
+	fr.checkMonitorInit(st, reach)
 	if f.F == nil || f.F.Fn == nil {
 		panic(unsupported("spawn of a non-static function value (" + what + ")"))
 	}
@@ -324,7 +442,30 @@ func (fr *frame) spawnClosure(f Val, st *State, reach string, what string) {
 	} else {
 		ex.used["spawned closure without contract: "+callee.String()] = true
 	}
+	if c := ex.w.contracts[callee]; c != nil {
+		for _, name := range sortedKeys(c.Contrib) {
+			ex.bumpExpected(st, name, c.Contrib[name], reach)
+		}
+	}
 	fr.spawned = append(fr.spawned, spawnRec{fn: callee, bind: f.F.Bind, at: st.clone(), reach: reach, pos: ex.posOf(callee.Pos())})
+}
+
+// Counter ghosts: a function that declares `contributes NAME N` adds exactly N to NAME in every execution (checked at
+// its returns). The spawner accumulates what it is owed in expected(NAME); at the join, when every spawned goroutine
+// has run to completion, NAME == expected(NAME).
+func (ex *Exec) expectedGet(st *State, name string) string {
+	if _, ok := ex.ghostGet(st, name); !ok {
+		panic(unsupported("counter ghost " + name + " is not declared"))
+	}
+	key := "X|expect." + name
+	ex.registerKey(key, sInt)
+	return ex.heapGet(st, key, sInt)
+}
+
+func (ex *Exec) bumpExpected(st *State, name string, n int, reach string) {
+	cur := ex.expectedGet(st, name)
+	st.H["X|expect."+name] = ex.name("expect", ite(reach, app("+", cur, num(int64(n))), cur), sInt)
+	ex.counters[name] = true
 }
 
 // join models Wait(): everything the spawned goroutines could have written is forgotten, variables that are
@@ -381,6 +522,15 @@ func (fr *frame) join(st *State, reach string) {
 			if ghostFramed[k] && !anyUnknown && !declared[k] {
 				continue
 			}
+			if strings.HasPrefix(k, "X|expect.") || strings.HasPrefix(k, "X|ncalls.") {
+				continue // bookkeeping of this goroutine only
+			}
+			if ex.counters[k[2:]] {
+				// every spawned goroutine has finished: the counter has received all contributions
+				st.H[k] = ex.expectedGet(st, k[2:])
+				ex.used["A-JOIN: counter ghost "+k[2:]+" equals the sum of the contributions of the joined goroutines"] = true
+				continue
+			}
 			st.H[k] = ex.freshConst("jg", srt)
 		}
 	}
@@ -435,6 +585,23 @@ func (fr *frame) join(st *State, reach string) {
 	}
 	fr.spawned = nil
 }
+
+// checkContrib: a function that declares contributions has made exactly those when it returns.
+func (fr *frame) checkContrib(reach string) {
+	ex := fr.ex
+	if fr.c == nil || !fr.top {
+		return
+	}
+	for _, name := range sortedKeys(fr.c.Contrib) {
+		got, ok := fr.contrib[name]
+		if !ok {
+			got = "0"
+		}
+		ex.oblige(fr.label("contributes."+name), "ensures", propsOfSafety(fr.c), imp(reach, eq(got, num(int64(fr.c.Contrib[name])))), fr.c.Pos, fmt.Sprintf("every execution adds exactly %d to %s", fr.c.Contrib[name], name))
+	}
+}
+
+func propsOfSafety(c *Contract) []string { return c.Safety }
 
 // checkJoined: at a return of the spawning function every goroutine it started has been waited for (C10: no goroutine
 // started by the run outlives the call).
